@@ -4,7 +4,7 @@ from . import core, tiec
 
 THEOREMS = ["get_insert", "get_of_inserts", "entries_of_inserts", "mergeStep_spec", "mergeStep_nonempty", "combinedGet_spec",
             "insertIfNotPresent_spec", "insert_idem", "setAdd_nodup", "mem_setAdd", "freeze_unfreeze", "panic_iff", "vals_insert",
-            "inserts_order_independent", "buildIdx_get", "buildIdx_entries", "moveContents_spec", "race_one_winner", "insertIfNotPresentMut_spec", "moveContents_truncates"]
+            "inserts_order_independent", "buildIdx_get", "buildIdx_entries", "moveContents_spec", "race_one_winner", "insertIfNotPresentMut_spec", "moveContents_truncates", "isEmpty_sound", "isEmpty_complete", "combinedIsEmpty_spec"]
 TRUSTED = ["Lean 4.33.0 kernel", "axioms: propext, Classical.choice, Quot.sound only (audited per theorem)",
            "statement of Props/C19.lean (refinement to multimaps up to List.Perm)",
            "model Model/Index.lean hand-written after internal.rs / rel_index_read.rs / c_rel_*.rs / c_lat_index.rs; tied by op-sequence "
@@ -90,6 +90,20 @@ def spec_run(ops):
                 if a.conc() and not a.frozen: out.append("panic")
                 elif a.alts or a.unknown: out.append(None)
                 else: out.append(show_entries(a.entries()))
+            elif o == "empty":
+                a = st[t[1]]
+                if a.conc() and not a.frozen: out.append("panic")
+                elif a.unknown: out.append(None)
+                else: out.append(str(len(a.m) == 0).lower())
+            elif o == "combempty":
+                a, b = st[t[1]], st[t[2]]
+                # `ind1.is_empty() && ind2.is_empty()`: the second side is only looked at when the first is empty
+                if a.conc() and not a.frozen: out.append("panic")
+                elif a.unknown: out.append(None)
+                elif len(a.m) != 0: out.append("false")
+                elif b.conc() and not b.frozen: out.append("panic")
+                elif b.unknown: out.append(None)
+                else: out.append(str(len(b.m) == 0).lower())
             elif o in ("comb", "comball"):
                 a, b = st[t[1]], st[t[2]]
                 if a.conc() and not (a.frozen and b.frozen): out.append("panic")
@@ -171,8 +185,10 @@ def gen_scenario(rng, idn, tier):
             ops.append(f"idx {'cinsnp' if ty == 'cfull' and rng.chance(1, 2) else 'insnp'} {x} {k} {v}")
         elif r < 56:
             ops.append(f"idx {'cget' if conc and rng.chance(1, 2) else 'get'} {x} {rng.choice(keys + [7])}")
-        elif r < 62:
+        elif r < 60:
             ops.append(f"idx {'call' if conc and rng.chance(1, 2) else 'all'} {x}")
+        elif r < 62 and ty not in ("noidx", "cnoidx"):
+            ops.append(f"idx empty {x}" if (rng.chance(1, 2) or ty == "clat") else f"idx combempty {T} {D}")
         elif r < 66 and ty in ("full", "cfull"):
             ops.append(f"idx {'getcloned' if ty == 'cfull' and rng.chance(1, 2) else 'has'} {x} {rng.choice(keys + [7])}")
         elif r < 74 and ty not in ("noidx", "cnoidx", "clat"):
@@ -198,6 +214,8 @@ def gen_scenario(rng, idn, tier):
     for y in (N, D, T):
         if conc: ops.append(f"idx freeze {y}")
         ops.append(f"idx all {y}")
+        if ty not in ("noidx", "cnoidx"): ops.append(f"idx empty {y}")
+    if ty not in ("noidx", "cnoidx", "clat"): ops.append(f"idx combempty {T} {D}")
     return ty, ops
 
 
@@ -225,6 +243,21 @@ def forced_scenarios():
     return out
 
 
+def sparse_scenarios():
+    """an index holding ONE key (every key of a range in turn, so every shard of the real DashMap is hit), alone and as one side of the
+    combined view: `is_empty` must answer false (generated code skips the whole rule on true)"""
+    out = []
+    for ty in ["rel", "full", "lat", "crel", "cfull", "clat"]:
+        for k in range(0, 48):
+            p = f"e{ty}{k}"
+            ops = [f"idx mk {p}a {ty}", f"idx mk {p}b {ty}", f"idx ins {p}a {k * 37 + 5} 1"]
+            if ty in CONC: ops += [f"idx freeze {p}a", f"idx freeze {p}b"]
+            ops += [f"idx empty {p}a", f"idx empty {p}b"]
+            if ty != "clat": ops += [f"idx combempty {p}a {p}b", f"idx combempty {p}b {p}a", f"idx combempty {p}b {p}b"]
+            out.append((ty, ops))
+    return out
+
+
 def check(tier, replay=None):
     r = core.Report("C19", tier)
     rng = core.SplitMix(core.seed()).fork("C19")
@@ -246,6 +279,7 @@ def check(tier, replay=None):
         for fn, c in core.corpus("C19"):
             scen.append(("corpus:" + fn, c["ops"]))
         scen += forced_scenarios()
+        scen += sparse_scenarios()
         n = 400 if (tier == "quick" and proof.ok) else 4000
         for i in range(n):
             scen.append(gen_scenario(rng, i, tier))
@@ -289,7 +323,7 @@ def check(tier, replay=None):
     r.cov["scenarios_per_type"] = hist
     r.cov["op_histogram"] = ops_hist
     r.cov["rule"] = ("scenario = op sequence on a (new, delta, total) triple of one of the 8 index types: inserts (&mut and shared), insert-if-absent, "
-                     "lookups of present/absent keys, iteration (serial and rayon), combined view, merge/move with either side larger (forced "
+                     "lookups of present/absent keys, is_empty (alone and of the combined view; one-key indices for 48 keys per type), iteration (serial and rayon), combined view, merge/move with either side larger (forced "
                      "scenarios cover <,=,> at map and vector level), freeze/unfreeze incl. wrong-state panics, multi-threaded `par` phases, "
                      "plus racing insert-if-absent rounds (8 threads x 8 keys); non-trivial = scenario containing a merge, move or par op")
     d.conclude(proof, "index operation sequences")
